@@ -453,7 +453,13 @@ pub fn configs_wait(max_parts: usize, faults: bool) -> Vec<PCfg> {
 pub fn configs_pay(max_new: u32, faults: bool) -> Vec<PCfg> {
     let mut out = Vec::new();
     for xpay in [false, true] {
-        for initial in [vec![], vec![PartStatus::Failed(204)]] {
+        let mut initials = vec![vec![], vec![PartStatus::Failed(204)]];
+        if faults {
+            // thorough tier: parts of an earlier command still pending / already complete when pay is called
+            initials.push(vec![PartStatus::Pending]);
+            initials.push(vec![PartStatus::Complete]);
+        }
+        for initial in initials {
             out.push(PCfg {
                 name: format!("pay/xpay={}/initial={:?}/new<={}", xpay, initial, max_new),
                 mode: Mode::Pay { xpay },
